@@ -60,6 +60,8 @@ type Cfg struct {
 	Ctor     int  // 0 NewXMSSFromSeed, 1 ..FromExtendedSeed(GetExtendedSeed), 2 ..FromExtendedSeed(MnemonicToExtendedSeedBin(GetMnemonic))
 	AllCtors bool // closure: start from all three constructors
 	MaxFails int
+	Own      string // property whose failures end the exploration early (others are recorded but do not stop it)
+	Follow   int    // chain: number of further signatures taken from every jump landing state
 }
 
 func (c Cfg) String() string {
@@ -72,7 +74,8 @@ func (c Cfg) String() string {
 
 type Res struct {
 	States, Transitions, Signs, Jumps, Refusals, Events, Verifies, RefCompares int64
-	NontrivialJumps                                                            int64  // SetIndex with j > idx+1 that succeeded
+	NontrivialJumps                                                            int64 // SetIndex with j > idx+1 that succeeded
+	OtherPropFails                                                             int64
 	AuthNotReadyInState                                                        int64  // states whose stored auth path was not (yet) the one of the next index (diagnostic)
 	CappedAt                                                                   uint64 // Lean: first index not covered because the time budget ran out (0 = complete)
 	TraceDigest                                                                string
@@ -131,9 +134,24 @@ type explorer struct {
 	prevSig, prevCopy []byte
 }
 
+func (e *explorer) ownFails() int {
+	n := 0
+	for _, f := range e.res.Fails {
+		if e.cfg.Own == "" || f.Prop == e.cfg.Own {
+			n++
+		}
+	}
+	return n
+}
+
 func (e *explorer) fail(prop, key string, ops []Op, d map[string]any) {
 	if e.cfg.MaxFails == 0 {
 		e.cfg.MaxFails = 20
+	}
+	if e.cfg.Own != "" && prop != e.cfg.Own {
+		// failures of other properties are kept only as a count: they must not use up the budget of this check
+		e.res.OtherPropFails++
+		return
 	}
 	if len(e.res.Fails) >= e.cfg.MaxFails {
 		return
@@ -524,7 +542,7 @@ func Closure(c Cfg, keepTrace bool) *Res {
 		return js
 	}
 	for len(queue) > 0 {
-		if e.hung || len(res.Fails) >= 5 || uint64(len(seen)) > 2*numEl+8 {
+		if e.hung || e.ownFails() >= 5 || uint64(len(seen)) > 8*numEl+8 {
 			break // the state graph is already known to be wrong: stop instead of exploring a blown-up graph
 		}
 		s := queue[0]
@@ -566,7 +584,7 @@ func Closure(c Cfg, keepTrace bool) *Res {
 		}
 	}
 	res.States = int64(len(seen))
-	if uint64(len(seen)) != numEl+1 && len(res.Fails) == 0 {
+	if uint64(len(seen)) != numEl+1 && e.ownFails() == 0 {
 		e.fail("C08", "reachable-state-count", nil, map[string]any{"expected": numEl + 1, "observed": len(seen)})
 	}
 	res.TraceDigest = hex.EncodeToString(e.sum())
@@ -716,10 +734,20 @@ func Chain(c Cfg, maxDist uint64, everyStateCheap bool, keepTrace bool, capIdx u
 					var kk [16]byte
 					copy(kk[:], d[:16])
 					lands = append(lands, landed{j, kk, jops})
-					// the signature produced right after the jump is checked like any other (C01)
-					sop := Op{Kind: "sign1"}
+					// the signatures produced after the jump are checked like any other (C01): a traversal slip in the
+					// fast-forward path typically shows only some signatures later (up to 2^(h-2) of them)
+					fops := append([]Op(nil), jops...)
 					e.prevSig = nil
-					e.step(k2, sop, append(append([]Op(nil), jops...), sop))
+					for f := 0; f < c.Follow && uint64(j)+uint64(f) < n; f++ {
+						sop := Op{Kind: "sign1"}
+						if f%2 == 1 {
+							sop = Op{Kind: "sign0"}
+						}
+						fops = append(fops, sop)
+						if !e.step(k2, sop, fops) {
+							break
+						}
+					}
 					e.prevSig = nil
 				}
 			}
@@ -739,7 +767,7 @@ func Chain(c Cfg, maxDist uint64, everyStateCheap bool, keepTrace bool, capIdx u
 			// last leaf: B must also sign to reach the exhausted state
 			e.step(b, opA, append(opsA(i), opA))
 		}
-		if len(res.Fails) >= 5 || e.hung {
+		if e.ownFails() >= 5 || e.hung {
 			break
 		}
 	}
